@@ -507,6 +507,34 @@ func (x *explorer) failing(s sort_, texts []string) int {
 	return n
 }
 
+// nesting puts the tree into the ordinary contexts of a hole of sort hs and reports whether it breaks there:
+// as a statement of an indented block, or in at least two expression contexts.
+func (x *explorer) nesting(kid *node, hs sort_) string {
+	ktext := kid.text()
+	ctxSort := sE
+	if hs == sP || hs == sT {
+		ctxSort = hs
+	}
+	bad := 0
+	for _, c := range neutralCtx[hs] {
+		ct := compile(sE, c)
+		kt := ktext
+		if needsParens(kid.t, ct.holes[0]) {
+			kt = "(" + kt + ")"
+		}
+		if x.fails(ctxSort, ct.fill([]string{kt})) {
+			if ct.holes[0] == sS {
+				return "print/reparse: node=" + classLabel(kid.t.class) + " breaks when indented inside a block"
+			}
+			bad++
+		}
+	}
+	if bad >= 2 {
+		return "print/reparse: node=" + classLabel(kid.t.class) + " is not parenthesised when nested"
+	}
+	return ""
+}
+
 // localise names the construction at fault, so that one printer defect gets one signature:
 //
 //	node=X                          X breaks on its own (leaf operands, top level);
@@ -547,29 +575,36 @@ func (x *explorer) localise(n *node) string {
 		kid := k
 		if x.fails(ps, flat.text()) {
 			kid = bare(k.t)
+		} else {
+			// the child's own children matter (a depth-3 chain n[k[g]]): first see whether the grandchild is at fault
+			for j, g := range k.kids {
+				if g == nil {
+					continue
+				}
+				if sig := x.nesting(bare(g.t), k.t.holes[j]); sig != "" {
+					return sig
+				}
+				if sig := x.nesting(g, k.t.holes[j]); sig != "" {
+					return sig
+				}
+				// n[g] without the middle node
+				if n.t.holes[i] == k.t.holes[j] || (n.t.holes[i] == sS && k.t.holes[j] == sE) {
+					direct := bare(n.t)
+					direct.kids[i], direct.par[i] = g, needsParens(g.t, n.t.holes[i])
+					if x.fails(ps, direct.text()) {
+						return x.localise(direct)
+					}
+				}
+				// the middle node with the grandchild, nested anywhere
+				if x.nesting(k, n.t.holes[i]) != "" {
+					return fmt.Sprintf("print/reparse: parent=%s child=%s", classLabel(k.t.class), classLabel(g.t.class))
+				}
+				return fmt.Sprintf("print/reparse: parent=%s child=%s grandchild=%s", classLabel(n.t.class), classLabel(k.t.class), classLabel(g.t.class))
+			}
 		}
 		// (a) the child inside ordinary contexts
-		ktext := kid.text()
-		ctxSort := sE
-		if n.t.holes[i] == sP || n.t.holes[i] == sT {
-			ctxSort = n.t.holes[i]
-		}
-		bad := 0
-		for _, c := range neutralCtx[n.t.holes[i]] {
-			ct := compile(sE, c)
-			kt := ktext
-			if needsParens(kid.t, ct.holes[0]) {
-				kt = "(" + kt + ")"
-			}
-			if x.fails(ctxSort, ct.fill([]string{kt})) {
-				if ct.holes[0] == sS {
-					return "print/reparse: node=" + classLabel(kid.t.class) + " breaks when indented inside a block"
-				}
-				bad++
-			}
-		}
-		if bad >= 2 {
-			return "print/reparse: node=" + classLabel(kid.t.class) + " is not parenthesised when nested"
+		if sig := x.nesting(kid, n.t.holes[i]); sig != "" {
+			return sig
 		}
 		// (b) the parent with ordinary operands in this hole
 		var texts []string
@@ -583,14 +618,6 @@ func (x *explorer) localise(n *node) string {
 		}
 		if x.failing(ps, texts) >= 2 {
 			return fmt.Sprintf("print/reparse: node=%s misprints its operands", classLabel(n.t.class))
-		}
-		if kid != k {
-			return fmt.Sprintf("print/reparse: parent=%s child=%s", classLabel(n.t.class), classLabel(k.t.class))
-		}
-		for _, gk := range k.kids {
-			if gk != nil {
-				return fmt.Sprintf("print/reparse: parent=%s child=%s grandchild=%s", classLabel(n.t.class), classLabel(k.t.class), classLabel(gk.t.class))
-			}
 		}
 		return fmt.Sprintf("print/reparse: parent=%s child=%s", classLabel(n.t.class), classLabel(k.t.class))
 	}
